@@ -75,6 +75,33 @@ Definition check_pcase (k : pcase) : bool :=
   | _, _ => false
   end.
 
+(* CreateVPArray + Match with the merged submission: same holder data, the merged walk on the verifier side *)
+Definition check_acase (k : pcase) : bool :=
+  match create_vp Fixed (k_def k) (k_creds k), k_create k with
+  | COk x, OVp fmt creds maps =>
+      N.eqb (vp_fmt x) fmt && creds_eqb (vp_creds x) creds && maps_eqb (vp_map x) maps &&
+      match_eqb (verifier_match_merged Fixed (k_def k) (k_disable k) {| vp_fmt := fmt; vp_creds := creds; vp_map := maps |})
+                (k_match k)
+  | CNoFrom, ONoFrom => true
+  | CNoCreds, ONoCreds => true
+  | _, _ => false
+  end.
+
+(* MatchSubmissionRequirement *)
+Record mcase := { m_def : defn; m_creds : list cred; m_apply : bool; m_out : option (list (N * list cred)) }.
+Fixpoint msr_eqb (a b : list (N * list cred)) : bool :=
+  match a, b with
+  | [], [] => true
+  | (i, x) :: r, (j, y) :: t => N.eqb i j && creds_eqb x y && msr_eqb r t
+  | _, _ => false
+  end.
+Definition check_mcase (k : mcase) : bool :=
+  match msr Fixed (m_def k) (m_creds k) (m_apply k), m_out k with
+  | Some a, Some b => msr_eqb a b
+  | None, None => true
+  | _, _ => false
+  end.
+
 (* the iterator driven directly: requirement, descriptor ids, then (exclude list, returned ids) per Next call *)
 Record icase := { i_req : req; i_descs : list N; i_steps : list (list N * list N) }.
 
@@ -109,9 +136,11 @@ Definition check_rcase (k : rcase) : bool :=
   | _, _ => false
   end.
 
-Inductive case := Px (k : pcase) | Ix (k : icase) | Rx (k : rcase).
+Inductive case := Px (k : pcase) | Ax (k : pcase) | Mx (k : mcase) | Ix (k : icase) | Rx (k : rcase).
 Definition check_case (c : case) : bool :=
-  match c with Px k => check_pcase k | Ix k => check_icase k | Rx k => check_rcase k end.
+  match c with
+  | Px k => check_pcase k | Ax k => check_acase k | Mx k => check_mcase k | Ix k => check_icase k | Rx k => check_rcase k
+  end.
 
 Fixpoint mismatches_from (i : nat) (cs : list case) : list nat :=
   match cs with
